@@ -95,9 +95,41 @@ def run_fragment(body: Sequence[ast.stmt], names: Dict[str, Any], attrs: Optiona
             return
         in_attrs = isinstance(t.value, ast.Attribute) and isinstance(attrs.get(_chain(t.value)), list)
         if not in_attrs and not (isinstance(t.value, ast.Name) and isinstance(env.get(t.value.id), list)):
-            raise Unfoldable("subscript store into something that is not a list value")
+            nm_ = t.value.id if isinstance(t.value, ast.Name) else (_chain(t.value) or "?")
+            raise Unfoldable("subscript store into something that is not a list value" + (f" (`{nm_}` unbound: {why[nm_]})" if nm_ in why else ""))
         base = copy.deepcopy(attrs[_chain(t.value)] if in_attrs else env[t.value.id])
 
+        if isinstance(t.slice, ast.Tuple) and len(t.slice.elts) == 2 and isinstance(t.slice.elts[0], ast.Constant) and t.slice.elts[0].value is Ellipsis:
+            # base[..., j] = v : one position of the last axis, for a value of any rank
+            from .constfold import _regular, _shape
+
+            j_ = fold(t.slice.elts[1])
+            bs_ = _regular(base)
+            if not (isinstance(j_, int) and not isinstance(j_, bool) and bs_ and -bs_[-1] <= j_ < bs_[-1]):
+                raise Unfoldable("store index")
+            vs_ = _shape(v) if isinstance(v, list) else None
+            if vs_ is not None and vs_ != bs_[:-1]:
+                if len(vs_) <= len(bs_) - 1 and vs_ == bs_[len(bs_) - 1 - len(vs_): -1]:
+                    pass  # broadcast over leading axes
+                else:
+                    raise Unfoldable("store shape mismatch")
+
+            def put_(b_, v_, level):
+                if level == len(bs_) - 1:
+                    b_[j_] = v_
+                    return
+                for k_, row_ in enumerate(b_):
+                    sub_ = v_
+                    if isinstance(v_, list) and len(_shape(v_)) == len(bs_) - 1 - level:
+                        sub_ = v_[k_]
+                    put_(row_, sub_, level + 1)
+
+            put_(base, copy.deepcopy(v), 0)
+            if in_attrs:
+                attrs[_chain(t.value)] = base
+            else:
+                env[t.value.id] = base
+            return
         if not isinstance(t.slice, (ast.Tuple, ast.Slice)):
             mask_ = fold(t.slice)
             if isinstance(mask_, BoolList):
@@ -340,7 +372,7 @@ def run_fragment(body: Sequence[ast.stmt], names: Dict[str, Any], attrs: Optiona
                         v = fold(st.value)
                 except Unfoldable as exc_:
                     # the value is outside literal arithmetic: its names become unbound (a later use fails)
-                    note_ = f"`{ast.unparse(st)[:70]}`: {str(exc_)[:120]}"
+                    note_ = f"`{ast.unparse(st)[:60]}`: {str(exc_)[-260:]}"
                     for t in st.targets:
                         for x in ast.walk(t):
                             if isinstance(x, ast.Name) and isinstance(x.ctx, ast.Store):
